@@ -413,7 +413,8 @@ static int exec_line(const char *line) {
     }
     if ((!strcmp(t[0], "reg_path") && n == 5) || (!strcmp(t[0], "dereg_path") && n == 3)) {
         NEEDH(1, m); int i = atoi(t[2]);
-        static const char *paths[] = { "", "/tmp", "/", "/proc" };
+        /* directories of pseudo file systems: watchable, and nothing another process does creates an inotify event there */
+        static const char *paths[] = { "", "/proc/sys", "/sys", "/proc" };
         m_src_path_t pt = { paths[i >= 0 && i < 4 ? i : 0], 0x100 /* IN_CREATE */ };
         if (t[0][0] == 'd') { result(m_mod_src_deregister_path(m, &pt)); return -1; }
         m_src_flags fl = prio_flags(t[3]); if (strchr(t[3], 'o')) fl |= M_SRC_ONESHOT; if (strchr(t[3], 'd')) fl |= M_SRC_DUP;
